@@ -99,6 +99,16 @@ def rule_R1(ctx):
                     flagname = {"client_data": "client_http_parsed", "server_data": "server_http_parsed", "buffer": "signature"}[field]
                     if flagname in names:
                         flag_blocks.append(i)
+            for gk, g in enumerate(grows):
+                # nothing is stored once the terminal state of that direction is reached
+                flagname = {"client_data": "client_http_parsed", "server_data": "server_http_parsed", "buffer": None}[field]
+                if flagname:
+                    gc = Q.canon_conds(P, T.dom_conds(b, S, g))
+                    gated = any(c[0] == "bool" and c[2] is False and any(x[0] == "field" and x[2] == flagname for x in T.walk(c[1])) for c in gc)
+                    ctx.check(gated, "R1", "%s.%s:%s:growth-gated@%d" % (owner, field, T.short(path).split("::")[-1], gk),
+                              "segments are stored only while %s is clear" % flagname,
+                              "payload is appended to %s.%s without testing %s: after the message of that direction has been reported every further segment of the "
+                              "connection (upload body, tunnel, pipelined data) is still retained" % (owner, field, flagname), ctx.loc(b, g))
             for g in grows:
                 ngrow += 1
                 reach = C.reachable_from(b, g) | {g}
@@ -238,7 +248,16 @@ def rule_R3(ctx):
     ctx.check(okrl, "R3", "http1:max_request_line_length", "Err when the request line exceeds the cap", "request line length cap no longer enforced", ctx.loc(rl))
 
 
+def rule_args(ctx):
+    """R1 (capacity routing): the configured limits reach the constructors under their own names"""
+    from . import _argswap as AS
+    n = AS.swapped_arguments(ctx, ctx.program, "R1", ("huginn_net_tcp", "huginn_net_http", "huginn_net_tls", "huginn_net"),
+                             only_params=("max_connections", "queue_size", "batch_size", "timeout_ms", "num_workers"))
+    ctx.floor("R1", "call sites passing connection / queue limits", n, 6)
+
+
 def run(ctx):
+    rule_args(ctx)
     rule_R1(ctx)
     rule_R2(ctx)
     rule_R3(ctx)
